@@ -2,6 +2,7 @@
    executed and compares the projections the properties constrain.
    usage: judge UNIVERSE CASES   (CASES lines: ID <tab> CASE-sexp <tab> OBSERVATION)
    output: ID <tab> ok | ID <tab> FAIL <tab> tags <tab> detail *)
+module ZA = Z   (* zarith; the extracted model has its own module Z since EnvParse uses ZArith *)
 open Model
 (* Model defines Coq's string (used by the access tables); here string is OCaml's *)
 type string = Stdlib.String.t
@@ -37,22 +38,22 @@ let parse_sx (s : string) : sx list =
   List.rev !acc
 
 (* ------------------------------------------------------------ numbers, bytes *)
-let rec pos_of_z (z : Z.t) : positive =
-  if Z.equal z Z.one then XH
-  else if Z.testbit z 0 then XI (pos_of_z (Z.shift_right z 1))
-  else XO (pos_of_z (Z.shift_right z 1))
+let rec pos_of_z (z : ZA.t) : positive =
+  if ZA.equal z ZA.one then XH
+  else if ZA.testbit z 0 then XI (pos_of_z (ZA.shift_right z 1))
+  else XO (pos_of_z (ZA.shift_right z 1))
 
-let n_of_z (z : Z.t) : n = if Z.sign z <= 0 then N0 else Npos (pos_of_z z)
-let n_of_int (i : int) : n = n_of_z (Z.of_int i)
+let n_of_z (z : ZA.t) : n = if ZA.sign z <= 0 then N0 else Npos (pos_of_z z)
+let n_of_int (i : int) : n = n_of_z (ZA.of_int i)
 
 let rec z_of_pos = function
-  | XH -> Z.one
-  | XO p -> Z.shift_left (z_of_pos p) 1
-  | XI p -> Z.succ (Z.shift_left (z_of_pos p) 1)
-let z_of_n = function N0 -> Z.zero | Npos p -> z_of_pos p
-let int_of_n x = Z.to_int (z_of_n x)
-let n_of_string s = n_of_z (Z.of_string s)
-let string_of_n x = Z.to_string (z_of_n x)
+  | XH -> ZA.one
+  | XO p -> ZA.shift_left (z_of_pos p) 1
+  | XI p -> ZA.succ (ZA.shift_left (z_of_pos p) 1)
+let z_of_n = function N0 -> ZA.zero | Npos p -> z_of_pos p
+let int_of_n x = ZA.to_int (z_of_n x)
+let n_of_string s = n_of_z (ZA.of_string s)
+let string_of_n x = ZA.to_string (z_of_n x)
 
 let rec nat_of_int i = if i <= 0 then O else S (nat_of_int (i - 1))
 let rec int_of_nat = function O -> 0 | S k -> 1 + int_of_nat k
@@ -704,7 +705,17 @@ let rec judge_case (u : uni) (case : sx) (obs : sx list) : verdict =
        (match obs with
         | [L [A "ok"; A r]] -> if r <> want then fail v "prop-legacy" (Printf.sprintf "%s returned %s, expected %s" name r want)
         | _ -> fail v "prop-legacy" (name ^ " failed"))
-   | L [A "env"] -> ()
+   | L [A "env"] ->
+       (* the environment the child actually ran under must be one the model of parseOrDefault
+          (EnvParse.v) accepts: the generator only emits valid values, so a rejection here is a
+          generator / model disagreement, not a violation *)
+       (match obs with
+        | [L [A "ok"; A h]] ->
+            let bs = bytes_of_hex h in
+            let rec split acc = function [] -> (List.rev acc, []) | c :: r when int_of_n c = 124 -> (List.rev acc, r) | c :: r -> split (c :: acc) r in
+            let (d, i) = split [] bs in
+            if not (env_alive d i) then fail v "gen-env-invalid" ("the model of parseOrDefault rejects this environment yet the process lives: " ^ string_of_hex h)
+        | _ -> ())
    | L (A "conc" :: A _ :: cs) ->
        (match obs with
         | [L (A "ok" :: rs)] when List.length rs = List.length cs ->
